@@ -136,7 +136,7 @@ def _inputs_of(t, acc):
 
 def cases(tier, seed):
     rng = random.Random(6000 + seed)
-    n = 1500 if tier == "quick" else 30000
+    n = 1500 if tier == "quick" else 36000
     out = []
     for fi in range(len(MAT_FNS)):
         for pi in range(len(MAT_POINTS)):
